@@ -675,7 +675,7 @@ class Vector(Qube):
                 divisor[zero_mask] = 1.
 
             # Reduce the zero mask over the item axes
-            zero_mask = np.any(zero_mask, axis=tuple(range(-self._rank_,0)))
+            zero_mask = np.any(zero_mask, axis=tuple(range(-arg._rank_,0)))
             divisor_mask = Qube.or_(arg._mask_, zero_mask)
 
         else:
@@ -684,13 +684,14 @@ class Vector(Qube):
 
         # Re-shape the divisor array if necessary to match the dividend shape
         if self._drank_:
-            divisor = divisor.reshape(divisor._shape_ + self._drank_ * (1,))
+            divisor = np.reshape(divisor, np.shape(divisor) + self._drank_ * (1,))
 
         # Construct the ratio object
         obj = Qube.__new__(type(self))
         obj.__init__(self._values_ / divisor,
                      Qube.or_(self._mask_, divisor_mask),
-                     units = Units.div_units(self._units_, arg._units_))
+                     units = Units.div_units(self._units_, arg._units_),
+                     drank = self._drank_)
 
         # Insert the derivatives if necessary
         if recursive:
